@@ -344,22 +344,33 @@ func matchWrite(st []string, x string, ptr bool, tsel string) (string, int) {
 		}
 		return "WrBad", 0
 	}
-	deref := func(ty string) string { return "*((*" + ty + ")(" + x + "))" }
+	// *((*T)(x)) and *(*T)(x) are the same expression; `s := ...` inside the loop is the same as
+	// `var s string` before it and `s = ...` inside
+	is := func(stmt, pre, ty, post string) bool {
+		return stmt == pre+"*((*"+ty+")("+x+"))"+post || stmt == pre+"*(*"+ty+")("+x+")"+post
+	}
 	switch {
-	case st[0] == "b=append(b,"+deref("byte")+")":
+	case is(st[0], "b=append(b,", "byte", ")"):
 		return "WrByte", 1
-	case st[0] == "b=appendUint16(b,"+deref("uint16")+")":
+	case is(st[0], "b=appendUint16(b,", "uint16", ")"):
 		return "WrU16", 1
-	case st[0] == "b=appendUint32(b,"+deref("uint32")+")":
+	case is(st[0], "b=appendUint32(b,", "uint32", ")"):
 		return "WrU32", 1
-	case st[0] == "b=appendUint64(b,"+deref("uint64")+")":
+	case is(st[0], "b=appendUint64(b,", "uint64", ")"):
 		return "WrU64", 1
-	case st[0] == "b=appendUint32(b,uint32("+deref("int64")+"))":
+	case is(st[0], "b=appendUint32(b,uint32(", "int64", "))"):
 		return "WrEnum", 1
-	case len(st) >= 3 && st[0] == "s="+deref("string") && st[1] == "b=appendUint32(b,uint32(len(s)))" && st[2] == "b=append(b,s...)":
+	case len(st) >= 3 && (is(st[0], "s=", "string", "") || is(st[0], "s:=", "string", "")) && st[1] == "b=appendUint32(b,uint32(len(s)))" && st[2] == "b=append(b,s...)":
 		return "WrStr", 3
 	}
 	errchk := "iferr!=nil{returnb,err}"
+	// "pick the element pointer, then one call" reads the same as the two-armed call
+	if len(st) >= 4 && st[3] == errchk {
+		m := regexp.MustCompile(`^(\w+):=` + q(x) + `$`).FindStringSubmatch(st[0])
+		if m != nil && st[1] == "if"+tsel+".IsPointer{"+m[1]+"=*(*unsafe.Pointer)("+x+")}" && st[2] == "b,err="+tsel+".AppendFunc("+tsel+",b,"+m[1]+")" {
+			return "WrFunc", 4
+		}
+	}
 	if len(st) >= 2 && st[1] == errchk {
 		fn := regexp.MustCompile("^if" + q(tsel) + `\.IsPointer\{b,err=` + q(tsel) + `\.AppendFunc\(` + q(tsel) + `,b,\*\(\*unsafe\.Pointer\)\(` + q(x) + `\)\)\}else\{b,err=` + q(tsel) + `\.AppendFunc\(` + q(tsel) + `,b,` + q(x) + `\)\}$`)
 		if fn.MatchString(st[0]) {
@@ -453,6 +464,33 @@ func classifyList(fd *ast.FuncDecl) routine {
 		return r
 	}
 	body := fd.Body.List
+	// `et := t.V` and then et throughout reads the same as `t = t.V` and then t
+	if len(body) > 0 {
+		if as, ok := body[0].(*ast.AssignStmt); ok && as.Tok == token.DEFINE && len(as.Lhs) == 1 && len(as.Rhs) == 1 && src(as.Rhs[0]) == "t.V" {
+			if id, ok := as.Lhs[0].(*ast.Ident); ok && id.Obj != nil {
+				obj := id.Obj
+				var touched []*ast.Ident
+				var saved []string
+				ast.Inspect(fd.Body, func(n ast.Node) bool {
+					if x, ok := n.(*ast.Ident); ok && x.Obj == obj {
+						touched = append(touched, x)
+						saved = append(saved, x.Name)
+					}
+					return true
+				})
+				for _, x := range touched {
+					x.Name = "t"
+				}
+				as.Tok = token.ASSIGN
+				defer func() {
+					for i, x := range touched {
+						x.Name = saved[i]
+					}
+					as.Tok = token.DEFINE
+				}()
+			}
+		}
+	}
 	st := stmts(body)
 	if len(st) < 5 || st[0] != "t=t.V" || st[1] != "b,n,vp:=appendListHeader(t,b,p)" || st[2] != "ifn==0{returnb,nil}" || st[len(st)-1] != "returnb,nil" {
 		return r
@@ -482,17 +520,111 @@ func classifyList(fd *ast.FuncDecl) routine {
 
 // expected bodies (whitespace removed) of the small shared helpers; a
 // difference makes the corresponding flag false
-var expectBody = map[string]string{
-	"appendListHeader": "{if*(*unsafe.Pointer)(p)==nil{returnappend(b,byte(t.WT),0,0,0,0),0,nil}h:=(*sliceHeader)(p)n:=uint32(h.Len)returnappend(b,byte(t.WT),byte(n>>24),byte(n>>16),byte(n>>8),byte(n)),n,h.Data}",
-	"appendMapHeader":  "{varnuint32if*(*unsafe.Pointer)(p)!=nil{n=uint32(maplen(*(*unsafe.Pointer)(p)))}returnappend(b,byte(t.K.WT),byte(t.V.WT),byte(n>>24),byte(n>>16),byte(n>>8),byte(n)),n}",
-	"checkMapN":        "{ifn==0{returnnil}returnerrors.New(\"mapsizechangedduringencoding\")}",
-	"appendMapBool":    "{ifv{returnappend(b,1)}returnappend(b,0)}",
-	"appendUint16":     "{returnappend(b,byte(v>>8),byte(v),)}",
-	"appendUint32":     "{returnappend(b,byte(v>>24),byte(v>>16),byte(v>>8),byte(v),)}",
-	"appendUint64":     "{returnappend(b,byte(v>>56),byte(v>>48),byte(v>>40),byte(v>>32),byte(v>>24),byte(v>>16),byte(v>>8),byte(v),)}",
-	"registerMapAppendFunc":  "{mapAppendFuncs[struct{k,vttype}{k:k,v:v}]=f}",
-	"registerListAppendFunc": "{listAppendFuncs[t]=f}",
-	"updateListAppendFunc":   "{ift.T!=tLIST&&t.T!=tSET{panic(\"[bug]typemismatch,got:\"+ttype2str(t.T))}f,ok:=listAppendFuncs[t.V.T]ifok{t.AppendFunc=freturn}t.AppendFunc=appendListAny}",
+
+// typeAliases: package-level `type X = T` declarations, X -> T (white space removed)
+func typeAliases(p *pkg) map[string]string {
+	out := map[string]string{}
+	for _, f := range p.files {
+		for _, d := range f.Decls {
+			gd, ok := d.(*ast.GenDecl)
+			if !ok || gd.Tok != token.TYPE {
+				continue
+			}
+			for _, sp := range gd.Specs {
+				if ts, ok := sp.(*ast.TypeSpec); ok && ts.Assign.IsValid() {
+					out[ts.Name.Name] = src(ts.Type)
+				}
+			}
+		}
+	}
+	return out
+}
+
+// canonBody prints the body of fd with its parameters and local variables renamed v1, v2, ... in
+// order of first appearance and the package's type aliases expanded: renaming a local, a parameter
+// or introducing an alias for a type does not change it
+func canonBody(p *pkg, fd *ast.FuncDecl) string {
+	if fd == nil || fd.Body == nil {
+		return "<missing>"
+	}
+	names := map[*ast.Object]string{}
+	var touched []*ast.Ident
+	var saved []string
+	// first collect (Object.Pos looks the declaring identifier up by name, so nothing may be
+	// renamed before every identifier has been classified)
+	collect := func(n ast.Node) bool {
+		id, ok := n.(*ast.Ident)
+		if !ok || id.Obj == nil || id.Obj.Kind != ast.Var || id.Name == "_" {
+			return true
+		}
+		o := id.Obj
+		if _, isField := o.Decl.(*ast.Field); isField {
+			// parameters are fields of fd.Type; fields of struct types written inside the body are not variables
+			inSig := false
+			for _, fl := range []*ast.FieldList{fd.Type.Params, fd.Type.Results, fd.Recv} {
+				if fl == nil {
+					continue
+				}
+				for _, f := range fl.List {
+					if f == o.Decl {
+						inSig = true
+					}
+				}
+			}
+			if !inSig {
+				return true
+			}
+		}
+		if o.Pos() < fd.Pos() || o.Pos() > fd.End() {
+			return true
+		}
+		if _, ok := names[o]; !ok {
+			names[o] = fmt.Sprintf("v%d", len(names)+1)
+		}
+		touched = append(touched, id)
+		saved = append(saved, id.Name)
+		return true
+	}
+	ast.Inspect(fd.Type, collect)
+	ast.Inspect(fd.Body, collect)
+	for _, id := range touched {
+		id.Name = names[id.Obj]
+	}
+	out := src(fd.Body)
+	for i, id := range touched {
+		id.Name = saved[i]
+	}
+	for a, t := range typeAliases(p) {
+		out = regexp.MustCompile(`\b`+regexp.QuoteMeta(a)+`\b`).ReplaceAllString(out, t)
+	}
+	// package-level integer constants by value: naming a magic number does not change it
+	out = regexp.MustCompile(`[A-Za-z_][A-Za-z_0-9]*`).ReplaceAllStringFunc(out, func(w string) string {
+		if v, ok := p.consts[w]; ok {
+			return fmt.Sprint(v)
+		}
+		return w
+	})
+	return out
+}
+
+// bodyIs: the function reads as expected, up to the names of its parameters and locals, type
+// aliases, and the listed equivalent formulations
+// canonical bodies (canonBody) of the small shared helpers, with the equivalent formulations seen
+// so far; anything else makes the corresponding flag false
+var expectCanon = map[string][]string{
+	"mapStructDesc.Get": {"{v2:=v3.slots[v1&65535].Load()ifv2==nil{returnnil}forv4:=range*v2{if(*v2)[v4].abiType==v1{return(*v2)[v4].sd}}returnnil}", "{v2:=v3.slots[v1&65535].Load()ifv2==nil{returnnil}ifv4:=indexOfAbiType(*v2,v1);v4>=0{return(*v2)[v4].sd}returnnil}"},
+	"mapStructDesc.Set": {"{ifv3.Get(v1)==v2{return}v4:=v1&mapStructDescBucketsvarv5[]mapStructDescItemifv6:=v3.slots[v4].Load();v6!=nil{v5=*v6}v7:=make([]mapStructDescItem,len(v5),len(v5)+1)copy(v7,v5)forv8:=rangev7{ifv7[v8].abiType==v1{v7[v8].sd=v2v3.slots[v4].Store(&v7)return}}v7=append(v7,mapStructDescItem{v1:v1,v2:v2})v3.slots[v4].Store(&v7)}", "{ifv3.Get(v1)==v2{return}v4:=&v3.slots[v1&65535]varv5[]mapStructDescItemifv6:=v4.Load();v6!=nil{v5=*v6}v7:=make([]mapStructDescItem,len(v5),len(v5)+1)copy(v7,v5)ifv8:=indexOfAbiType(v7,v1);v8>=0{v7[v8].sd=v2}else{v7=append(v7,mapStructDescItem{v1:v1,v2:v2})}v4.Store(&v7)}"},
+	"indexOfAbiType": {"{forv3:=rangev1{ifv1[v3].abiType==v2{returnv3}}return-1}"},
+	"appendListHeader": {"{if*(*unsafe.Pointer)(v3)==nil{returnappend(v2,byte(v1.WT),0,0,0,0),0,nil}v4:=(*sliceHeader)(v3)v5:=uint32(v4.Len)returnappend(v2,byte(v1.WT),byte(v5>>24),byte(v5>>16),byte(v5>>8),byte(v5)),v5,v4.Data}"},
+	"appendMapHeader": {"{varv4uint32if*(*unsafe.Pointer)(v3)!=nil{v4=uint32(maplen(*(*unsafe.Pointer)(v3)))}returnappend(v2,byte(v1.K.WT),byte(v1.V.WT),byte(v4>>24),byte(v4>>16),byte(v4>>8),byte(v4)),v4}"},
+	"checkMapN": {"{ifv1==0{returnnil}returnerrors.New(\"mapsizechangedduringencoding\")}", "{ifv1!=0{returnerrors.New(\"mapsizechangedduringencoding\")}returnnil}"},
+	"appendMapBool": {"{ifv2{returnappend(v1,1)}returnappend(v1,0)}"},
+	"appendUint16": {"{returnappend(v1,byte(v2>>8),byte(v2),)}"},
+	"appendUint32": {"{returnappend(v1,byte(v2>>24),byte(v2>>16),byte(v2>>8),byte(v2),)}"},
+	"appendUint64": {"{returnappend(v1,byte(v2>>56),byte(v2>>48),byte(v2>>40),byte(v2>>32),byte(v2>>24),byte(v2>>16),byte(v2>>8),byte(v2),)}"},
+	"registerMapAppendFunc": {"{mapAppendFuncs[struct{k,vttype}{v1:v1,v2:v2}]=v3}"},
+	"registerListAppendFunc": {"{listAppendFuncs[v1]=v2}"},
+	"updateListAppendFunc": {"{ifv1.T!=15&&v1.T!=14{panic(\"[bug]typemismatch,got:\"+ttype2str(v1.T))}v2,v3:=listAppendFuncs[v1.V.T]ifv3{v1.AppendFunc=v2return}v1.AppendFunc=appendListAny}", "{ifv1.T!=15&&v1.T!=14{panic(\"[bug]typemismatch,got:\"+ttype2str(v1.T))}ifv2,v3:=listAppendFuncs[v1.V.T];v3{v1.AppendFunc=v2}else{v1.AppendFunc=appendListAny}}"},
 }
 
 func bodyIs(p *pkg, name string) bool {
@@ -500,7 +632,13 @@ func bodyIs(p *pkg, name string) bool {
 	if fd == nil || fd.Body == nil {
 		return false
 	}
-	return src(fd.Body) == expectBody[name]
+	c := canonBody(p, fd)
+	for _, e := range expectCanon[name] {
+		if c == e {
+			return true
+		}
+	}
+	return false
 }
 
 var simpleCase = map[string]string{
@@ -520,7 +658,7 @@ func simpleSwitch(p *pkg, fn string) (map[int64]string, bool) {
 	}
 	var sw *ast.SwitchStmt
 	ast.Inspect(fd.Body, func(n ast.Node) bool {
-		if s, ok := n.(*ast.SwitchStmt); ok && sw == nil && s.Tag != nil && src(s.Tag) == "t.T" {
+		if s, ok := n.(*ast.SwitchStmt); ok && sw == nil && s.Tag != nil && regexp.MustCompile(`^\w+\.T$`).MatchString(src(s.Tag)) {
 			sw = s
 		}
 		return true
@@ -642,13 +780,19 @@ func genTables(r *pkg) string {
 	mdefault := "?"
 	binGuard := false
 	if fd := r.funcs["updateMapAppendFunc"]; fd != nil && fd.Body != nil {
-		s := src(fd.Body)
-		guard := "ift.V.Tag==defs.T_binary{ok=false}"
-		if strings.Contains(s, guard) {
-			binGuard = true
-			s = strings.Replace(s, guard, "", 1)
+		s := canonBody(r, fd)
+		// the []byte guard, before the lookup result is used: either formulation
+		for _, g := range [][2]string{
+			{"ifv1.V.Tag==defs.T_binary{v3=false}ifv3{v1.AppendFunc=v2return}", "ifv3{v1.AppendFunc=v2return}"},
+			{"ifv3&&v1.V.Tag!=defs.T_binary{v1.AppendFunc=v2return}", "ifv3{v1.AppendFunc=v2return}"},
+		} {
+			if strings.Contains(s, g[0]) {
+				binGuard = true
+				s = strings.Replace(s, g[0], g[1], 1)
+				break
+			}
 		}
-		re := regexp.MustCompile(`^\{ift\.T!=tMAP\{panic\("\[bug\]typemismatch,got:"\+ttype2str\(t\.T\)\)\}f,ok:=mapAppendFuncs\[struct\{k,vttype\}\{k:t\.K\.T,v:t\.V\.T\}\]ifok\{t\.AppendFunc=freturn\}t\.AppendFunc=(\w+)\}$`)
+		re := regexp.MustCompile(`^\{ifv1\.T!=13\{panic\("\[bug\]typemismatch,got:"\+ttype2str\(v1\.T\)\)\}v2,v3:=mapAppendFuncs\[struct\{k,vttype\}\{k:v1\.K\.T,v:v1\.V\.T\}\]ifv3\{v1\.AppendFunc=v2return\}v1\.AppendFunc=(\w+)\}$`)
 		if m := re.FindStringSubmatch(s); m != nil {
 			mdefault = m[1]
 		}
@@ -772,6 +916,19 @@ func writeIfChanged(path, content string) {
 }
 
 func main() {
+	if len(os.Args) >= 3 && os.Args[1] == "-canon" {
+		// extract -canon REPO name...: canonical bodies, for maintaining expectCanon
+		r := loadPkg(filepath.Join(os.Args[2], "internal", "reflect"), false)
+		for _, n := range os.Args[3:] {
+			fmt.Printf("%s\t%q\n", n, canonBody(r, r.funcs[n]))
+		}
+		return
+	}
+	if len(os.Args) == 3 && os.Args[1] == "-canonopts" {
+		op := loadPkg(filepath.Join(os.Args[2], "internal", "opts"), false)
+		fmt.Printf("%q\n", canonBody(op, op.funcs["parseOrDefault"]))
+		return
+	}
 	if len(os.Args) != 4 {
 		fatal("usage: extract REPO GOPKGDIR OUTDIR")
 	}
